@@ -25,6 +25,7 @@
 #include <signal.h>
 #include <unistd.h>
 #include <sys/wait.h>
+#include <fcntl.h>
 #include "libyang.h"
 #include "ly_common.h"
 #include "hash_table_internal.h"
@@ -1031,7 +1032,8 @@ do_op(const struct op *o, int idx)
             if (!is_inner(par)) return -1;
             /* without WITH_PARENTS the library does not check that the parent fits (precondition) */
             if (!(opts & LYD_DUP_WITH_PARENTS) && (!n->schema || (lysc_data_parent(n->schema) != par->schema))) return -1;
-            if (in_subtree(n, par) && IS("dd")) return -1;
+            /* siblings duplicated into their own sibling list (or below themselves) would be iterated for ever */
+            if (IS("dd") && (in_subtree(n, par) || (lyd_parent(n) == par))) return -1;
         }
         if (IS("ds")) {
             rc = lyd_dup_single(n, (struct lyd_node_inner *)par, opts, &dup);
@@ -1483,6 +1485,44 @@ cached_ctx(int set, uint32_t opts)
     return new_ctx(set, opts);
 }
 
+/* stderr of a history goes to a scratch file (fd errfd, shared with the parent): the parent passes it on only when the
+ * history dies, so the report of a crash is not mixed with LeakSanitizer output of earlier, answered histories */
+static int errfd = -1;
+
+/* allocation site of the first reported leak: first frame that is not an allocator / interceptor */
+static void
+leak_site(int leak, char *buf, size_t size)
+{
+    static char rep[65536];
+    ssize_t n;
+    char *p, *q;
+    size_t k = 0;
+
+    snprintf(buf, size, "-");
+    if (!leak || (errfd < 0)) {
+        return;
+    }
+    n = pread(errfd, rep, sizeof rep - 1, 0);
+    if (n <= 0) {
+        return;
+    }
+    rep[n] = 0;
+    p = strstr(rep, "leak of ");
+    p = p ? strchr(p, '\n') : NULL;
+    while (p && (p = strstr(p, " in "))) {
+        p += 4;
+        if (!strncmp(p, "__interceptor", 13) || !strncmp(p, "malloc", 6) || !strncmp(p, "calloc", 6) || !strncmp(p, "realloc", 7) ||
+                !strncmp(p, "strdup", 6) || !strncmp(p, "strndup", 7) || !strncmp(p, "ly_realloc", 10) || !strncmp(p, "__interceptor_", 14)) {
+            continue;
+        }
+        for (q = p; *q && (*q != ' ') && (*q != '\n') && (k < size - 1); q++) {
+            buf[k++] = *q;
+        }
+        buf[k] = 0;
+        break;
+    }
+}
+
 static void
 run_history(const char *id, int set, uint32_t ctxopts, char *script)
 {
@@ -1490,6 +1530,7 @@ run_history(const char *id, int set, uint32_t ctxopts, char *script)
     static int rcs[MAXOPS];
     int nops = 0, i, live = 0, leak, heap;
     long a0, a1;
+    char leakat[128];
     char *p, *save1 = NULL;
     long r, s;
 
@@ -1538,7 +1579,9 @@ run_history(const char *id, int set, uint32_t ctxopts, char *script)
     ctx = NULL;
     a1 = HEAP_BYTES();
     heap = ((expect_bytes < 0) || (a0 - a1 != expect_bytes)) ? 1 : 0;
+    alarm(300);
     leak = (heap || (ctxopts & FORCE_LSAN)) ? VP_LEAKCHECK() : 0;
+    leak_site(leak, leakat, sizeof leakat);
 
     vp_begin(id, "ok");
     fputs(" rc=", stdout);
@@ -1551,7 +1594,7 @@ run_history(const char *id, int set, uint32_t ctxopts, char *script)
         fprintf(stdout, "%s%d", i ? "," : "", sfail_idx[i]);
     }
     if (!n_sfail) fputs("-", stdout);
-    fprintf(stdout, " warn=%d eint=%d onn=%d integ=%d lost=%d live=%d heap=%d leak=%d", n_warn, n_eint, n_onn, n_integ, n_lost, live, heap, leak ? 1 : 0);
+    fprintf(stdout, " warn=%d eint=%d onn=%d integ=%d lost=%d live=%d heap=%d leak=%d leakat=%s", n_warn, n_eint, n_onn, n_integ, n_lost, live, heap, leak ? 1 : 0, leakat);
     vp_end();
 }
 
@@ -1620,6 +1663,14 @@ main(void)
 
     VP_ASAN_CB();
     debug = getenv("VERIF_LIFE_DEBUG") ? 1 : 0;
+    if (!debug) {
+        char tmpl[] = "/var/tmp/api_life_err_XXXXXX";
+
+        errfd = mkstemp(tmpl);
+        if (errfd >= 0) {
+            unlink(tmpl);
+        }
+    }
     ly_set_log_clb(logcb);
     ly_log_options(LY_LOLOG | LY_LOSTORE_LAST);
     ly_log_level(LY_LLWRN);
@@ -1641,14 +1692,32 @@ main(void)
             pid = fork();
             if (pid < 0) { vp_reply(id, "err Fork"); continue; }
             if (!pid) {
-                alarm(15);
+                alarm(20);
+                if (errfd >= 0) {
+                    dup2(errfd, 2);
+                }
                 run_history(id, atoi(r.tok[3]), (uint32_t)strtoul(r.tok[4], NULL, 10), r.tok[5]);
                 fflush(stdout);
                 _exit(0);
             }
             while ((waitpid(pid, &st, 0) < 0)) {}
             if (WIFEXITED(st) && !WEXITSTATUS(st)) {
+                if (errfd >= 0) {
+                    if (ftruncate(errfd, 0)) {}
+                    lseek(errfd, 0, SEEK_SET);
+                }
                 continue;
+            }
+            if (errfd >= 0) {
+                /* the history died: its stderr is the report */
+                static char buf[65536];
+                ssize_t n;
+                off_t off = 0;
+
+                while ((n = pread(errfd, buf, sizeof buf, off)) > 0) {
+                    if (write(2, buf, n)) {}
+                    off += n;
+                }
             }
             if (WIFSIGNALED(st)) {
                 fprintf(stderr, "\nVERIF ERROR: history killed by signal %d%s\n", WTERMSIG(st), WTERMSIG(st) == SIGALRM ? " (timeout)" : "");
